@@ -2,6 +2,7 @@ package hvxwire
 
 import (
 	"fmt"
+	"strconv"
 	"strings"
 
 	"verifharness/hv"
@@ -244,22 +245,40 @@ func PatternD(n int, start, delta byte) []byte {
 	return b
 }
 
-// CoqBytes prints a byte string as a Coq term of type bytes: hex literals of bounded size, and
-// (pat n start delta) for long constant-delta runs.
+// ib prints bytes as (ib n [i0; i1; ...]%uint63) of Corr/CorrBytes.v: 7 bytes per primitive
+// 63-bit integer, little endian; parsed natively by Coq (string literals are interpreted by
+// reduction and cost ~0.1 ms per character).
+func ib(b []byte) string {
+	var sb strings.Builder
+	sb.WriteString("(ib ")
+	sb.WriteString(strconv.Itoa(len(b)))
+	sb.WriteString(" [")
+	for i := 0; i < len(b); i += 7 {
+		var v uint64
+		for j := 0; j < 7 && i+j < len(b); j++ {
+			v |= uint64(b[i+j]) << (8 * uint(j))
+		}
+		if i > 0 {
+			sb.WriteString(";")
+		}
+		sb.WriteString(strconv.FormatUint(v, 10))
+	}
+	sb.WriteString("]%uint63)")
+	return sb.String()
+}
+
+// CoqBytes prints a byte string as a Coq term of type bytes: (ib ..) literals, and
+// (pat n start delta) for constant-delta runs of 16 bytes and more.
 func CoqBytes(b []byte) string {
 	if len(b) < 16 {
-		return hv.Hex(b)
+		return ib(b)
 	}
 	var parts []string
 	var lit []byte
 	flush := func() {
-		for len(lit) > 0 {
-			k := len(lit)
-			if k > 2048 {
-				k = 2048
-			}
-			parts = append(parts, hv.Hex(lit[:k]))
-			lit = lit[k:]
+		if len(lit) > 0 {
+			parts = append(parts, ib(lit))
+			lit = nil
 		}
 	}
 	for i := 0; i < len(b); {
